@@ -34,7 +34,9 @@ def encode_container(magic: bytes, version: int, l4d2: bool, map_revision: int,
     align=False with the default order reproduces the layout BSP.save is expected to write: lumps in index order with
     the pakfile last, no padding, one NUL between game lumps, a dummy directory entry after a compressed last one."""
     from srctools.binformat import compress_lzma
-    if odd_lzma:
+    if odd_lzma == 'source':
+        compress_lzma = compress_lzma_source
+    elif odd_lzma:
         compress_lzma = compress_lzma_odd
     buf = io.BytesIO()
     buf.write(struct.pack('<4si', magic, version))
@@ -93,6 +95,27 @@ def compress_lzma_odd(data: bytes) -> bytes:
     return struct.pack('<4sIIBI', b'LZMA', len(data), len(comp), props, 1024) + comp + b'\0'
 
 
+def compress_lzma_source(data: bytes) -> bytes:
+    """The blob the Source compilers write (lc=3, lp=0, pb=2, 16 MiB dictionary, the header naming exactly these), made with
+    CPython's lzma only: inputs built with it do not depend on srctools' own compressor (round 6)."""
+    import lzma
+    filt = {'id': lzma.FILTER_LZMA1, 'dict_size': 1 << 24, 'lc': 3, 'lp': 0, 'pb': 2}
+    comp = lzma.compress(data, lzma.FORMAT_RAW, filters=[filt])
+    return struct.pack('<4sIIBI', b'LZMA', len(data), len(comp), (2 * 5 + 0) * 9 + 3, 1 << 24) + comp
+
+
+def long_range(rng: random.Random, size: int) -> bytes:
+    """`size` incompressible bytes in which one 600-byte block occurs at the start, at distances 4600 and 66000 (where they fit)
+    and at the very end: the last copy is further back than every power of two below `size` (sizes used: 5200, 70000, 200000,
+    none a power of two), so a decoder needs a dictionary larger than the largest power of two <= size."""
+    block = rng.randbytes(600)
+    out = bytearray(block + rng.randbytes(size - 1200) + block)
+    for at in (4600, 66000):
+        if at + 600 < size - 600:
+            out[at:at + 600] = block
+    return bytes(out)
+
+
 def decode_container(blob: bytes) -> dict[str, Any]:
     try:
         return _decode_container(blob)
@@ -147,7 +170,8 @@ def synth(rng: random.Random, layout: str = 'v20', *, compress: tuple = (), orig
           faceids: str = 'full', water: bool = True, overlay_aux: bool = True, vis: bool = True,
           n_extra: int = 1, extra_game: bool = False, compress_game: tuple = (), fractional_bounds: bool = False,
           detail_shapes: bool = False, hdr: bool = True, bad: tuple = (), aux: str = 'normal',
-          adv: bool = True, sprp: Any = 'layout', empty: bool = False, odd_lzma: bool = False) -> tuple[bytes, dict]:
+          adv: bool = True, sprp: Any = 'layout', empty: bool = False, odd_lzma: bool = False, big: tuple = (),
+          case_names: str = '') -> tuple[bytes, dict]:
     """Build one consistent BSP. Returns (file bytes, description).
     `adv` (default on) makes the contents of every table a writer rebuilds or de-duplicates adversarial but valid:
     texture names that are a prefix / an inner substring / a tail of an EARLIER name (storage the string-pool search may
@@ -168,6 +192,12 @@ def synth(rng: random.Random, layout: str = 'v20', *, compress: tuple = (), orig
     first record zero, the others as usual; 'maxed' = all bits set where that is a legal value; 'absent' = the
     optional side lumps are not there at all (LEAFMINDISTTOWATER, OVERLAY_FADES, OVERLAY_SYSTEM_LEVELS empty: an older
     compiler).
+    `big` (round 6) = (size of LIGHTING, size of LIGHTING_HDR, size of the extra game lump `xtra`, number of extra vertexes): these
+    lumps get long_range() content (a block repeated at distances 4 KB, 64 KB and beyond every power of two below the length; the
+    vertex array gets a run of 50 unused vertexes repeated after `n` others) and every compressed lump of the file is compressed
+    with compress_lzma_source (CPython lzma with the compilers' parameters), not with srctools' compress_lzma.
+    `case_names` (round 6): texture names that differ from another name of the table ONLY in letter case, each stored in full:
+    'table' = in the string table only (no texdata refers to them), 'texdata' = each also has a texdata record (and texinfos).
     `bad` makes lumps malformed so that looking at their view raises: 'sprp_version' (static props of the unknown
     version 14: the reader raises at once), 'sprp_size' (3 stray bytes: the reader raises after it looked at visleafs),
     'ents' (last entity not terminated), 'bmodel_ref' (an entity naming a brush model that does not exist: the bmodels
@@ -201,6 +231,9 @@ def synth(rng: random.Random, layout: str = 'v20', *, compress: tuple = (), orig
                  ][:5 + 2 * n_extra]
     if aux == 'zero':
         names = names[:1]       # a single name: the string table is [0]
+    case_extra = [names[0].swapcase(), names[-1].upper() if names[-1] != names[-1].upper() else names[-1].lower(), names[0].title()]
+    if case_names == 'texdata':
+        names = names + case_extra
     sdata = b''
     offs = []
     for nm in names:
@@ -224,6 +257,10 @@ def synth(rng: random.Random, layout: str = 'v20', *, compress: tuple = (), orig
         td.append(td[1])                                    # exact duplicate of texdata 1
         td.append(struct.pack('<3f', 0.75, 0.5, 0.125) + td[1][12:])      # near duplicate: same name and size, other reflectivity
     d['TEXDATA'] = b''.join(td)
+    if case_names == 'table':      # spellings that no texdata record refers to: the table may hold unused names
+        for nm in case_extra:
+            d['TEXDATA_STRING_TABLE'] += struct.pack('<i', len(d['TEXDATA_STRING_DATA']))
+            d['TEXDATA_STRING_DATA'] += nm.encode() + b'\0'
     n_ti = len(td) + 1
     ti = [struct.pack('<16fii', *[_f(rng) for _ in range(16)], rng.choice([0, 4, 0x80, 0x400]), i % len(td)) for i in range(n_ti)]
     if adv:
@@ -381,6 +418,11 @@ def synth(rng: random.Random, layout: str = 'v20', *, compress: tuple = (), orig
                'LIGHTING_HDR', 'WORLDLIGHTS_HDR', 'MAP_FLAGS', 'DISP_TRIS', 'PHYSLEVEL'):
         d[nm] = bytes(rng.randrange(256) for _ in range(rng.choice([4, 12, 60, 200])))
     d['LIGHTING'] = b'LZMA' + d['LIGHTING']      # raw data that merely looks like a compressed blob
+    if big:
+        d['LIGHTING'] = long_range(rng, big[0])
+        d['LIGHTING_HDR'] = long_range(rng, big[1])
+        run = b''.join(struct.pack('<fff', _f(rng), _f(rng), 64.0 + i) for i in range(50))        # 600 bytes
+        d['VERTEXES'] += run + b''.join(struct.pack('<fff', _f(rng), _f(rng), 128.0) for _ in range(big[3])) + run
     # game lumps
     leaf_fmt = L['STATICPROPLEAF']
     model_names = ['models/props/a.mdl', 'models/props_c17/b.mdl']
@@ -492,7 +534,8 @@ def synth(rng: random.Random, layout: str = 'v20', *, compress: tuple = (), orig
             d.pop(nm, None)
     games: list[tuple[bytes, int, int, bytes]] = [(b'sprp', 1 if 'sprp' in compress_game else 0, sp_ver, sp_data)]
     if extra_game:
-        games.append((b'xtra', (1 if 'xtra' in compress_game else 0) | 0x4, 3, bytes(rng.randrange(256) for _ in range(77))))
+        games.append((b'xtra', (1 if 'xtra' in compress_game else 0) | 0x4, 3,
+                      long_range(rng, big[2]) if big else bytes(rng.randrange(256) for _ in range(77))))
     games.append((b'dprp', 1 if 'dprp' in compress_game else 0, 4, dp_data))
     lumps: dict[int, tuple[int, bytes, bool]] = {}
     for nm, data in d.items():
@@ -503,9 +546,9 @@ def synth(rng: random.Random, layout: str = 'v20', *, compress: tuple = (), orig
         lumps[idx] = (lver, data, nm in compress and nm != 'PAKFILE')
     lumps[35] = (0, b'', False)
     rev = rng.randint(1, 5000)
-    blob = encode_container(magic, version, l4d2, rev, lumps, games, odd_lzma=odd_lzma)
+    blob = encode_container(magic, version, l4d2, rev, lumps, games, odd_lzma='source' if big else odd_lzma)
     desc = dict(layout=layout, compress=sorted(compress), compress_game=sorted(compress_game), origin_vertex=origin_vertex,
                 faceids=faceids, water=water, overlay_aux=overlay_aux, vis=vis, n_extra=n_extra, extra_game=extra_game,
-                fractional_bounds=fractional_bounds, detail_shapes=detail_shapes, hdr=hdr, bad=sorted(bad), aux=aux, adv=adv, sprp=sprp, empty=empty, odd_lzma=odd_lzma, map_revision=rev, size=len(blob))
+                fractional_bounds=fractional_bounds, detail_shapes=detail_shapes, hdr=hdr, bad=sorted(bad), aux=aux, adv=adv, sprp=sprp, empty=empty, odd_lzma=odd_lzma, big=list(big), case_names=case_names, map_revision=rev, size=len(blob))
     desc['_parts'] = dict(magic=magic, version=version, l4d2=l4d2, map_revision=rev, lumps=lumps, games=games)
     return blob, desc
